@@ -11,16 +11,23 @@ S3 compares events (text/event boundary), the returned interfaces with object id
 cache afterwards, and the proxy's accept/reject decisions.  S4 (oracle, implementation only) evaluates the
 property statement: declared vs recovered.  A second stream drives the real IntrospectionHandler directly with
 mutated (not well nested, attributes missing) event sequences.
+
+Histories in ONE process (the table `DBusInterface.knownInterfaces` is process-wide): a document may carry
+`failed` - declarations `DBusInterface(name, *members)` that RAISE part-way (a non-member argument, a member
+whose signature makes genCompleteTypes raise; at every position of the member list), attempted after the cache
+was filled and before the round trip ('before') or between the two parses ('between').  A declaration that
+raised declared nothing: the round trip and the table afterwards are judged exactly as without it.
 """
 import xml.sax
 import xml.sax.handler
 from io import StringIO
 
-STREAMS = ['gen-events', 'parse-result', 'proxy-calls', 'handler-events', 'malformed-defs']
+STREAMS = ['gen-events', 'parse-result', 'proxy-calls', 'handler-events', 'malformed-defs', 'failed-declarations']
 THEOREMS = ['handler_gen', 'handler_gen_fresh', 'proxy_accepts_same_calls', 'declared_method_count',
             'declared_method_accepts', 'std_name_collision_witness',
             'known_reused_unless_replaced', 'generated_attribute_values_need_no_escaping', 'xml_cache_coherent',
-            'members_sorted']
+            'members_sorted', 'failed_construction_leaves_registry', 'registry_holds_only_declared_or_parsed',
+            'roundtrip_after_failed_declarations', 'register_first_model_violates']
 TRUSTED_BASE = [
     'expat / xml.sax: text <-> SAX events (the model starts at the event level; validated per case by parsing the '
     'generated text with a recording ContentHandler and comparing with the model\'s event list)',
@@ -49,7 +56,12 @@ ASSUMPTIONS = [
     'without replacement holds the known definition and the known object is not modified (object identity is not '
     'demanded); (c) "unless replacement is requested" = the returned interface holds the declared definition (a new '
     'object or an in-place refresh are both fine) AND a later default-mode parse of the same text sees that '
-    'replaced definition (the docstring of getInterfacesFromXML: known definitions "will be replaced")',
+    'replaced definition (the docstring of getInterfacesFromXML: known definitions "will be replaced"); '
+    '(d) "already known locally" = declared in this process by a DBusInterface(...) call that RETURNED (without '
+    'noRegister), put into the table by the application, or read from XML by an earlier parse - a declaration that '
+    'raised declared nothing, so after it the name is as known / unknown as before; (e) whatever the table holds '
+    'under a declared name after the round trip is what later default-mode parses will hand out, so it must be the '
+    'definition that was known before (reuse) or the declared one - that the parse registers at all is NOT demanded',
 ]
 RULE = ('one case = one document (path, exported objects, each interface built by a random sequence of add*/del*/'
         'introspectionXml operations with 0-6 members of each kind and signatures from a type-directed generator over '
@@ -322,6 +334,57 @@ def share_members(rng, case):
     case['shares'] = True
 
 
+OTHER_ARGS = ['tuple', 'str', 'none', 'int', 'list', 'iface', 'class']
+RAISING_SIGS = ['(is', 'a', '(', 'a{s', 'ia', '(ii', 'a(', 'i(a', '((i)', 'a{sv', 'sa', 's(i', 'aa']
+
+
+def add_ops_of(d):
+    """the members an interface definition ends up with, as constructor arguments (fresh member objects)"""
+    fm = final_members(d)
+    out = []
+    for k in 'msp':
+        for op in fm[k].values():
+            out.append([x for x in op if not isinstance(x, dict)])
+    return out
+
+
+def gen_bad_arg(rng):
+    """a constructor argument that makes DBusInterface.__init__ raise"""
+    r = rng.random()
+    if r < 0.4:
+        return ['o', rng.choice(OTHER_ARGS)]
+    name = gen_member_name(rng)
+    if r < 0.6:
+        return ['m', name, rng.choice(RAISING_SIGS), ''.join(gen_types(rng)), None, None]
+    if r < 0.75:
+        # the input signature is counted before the output signature raises
+        return ['m', name, ''.join(gen_types(rng)), rng.choice(RAISING_SIGS), None, None]
+    return ['s', name, rng.choice(RAISING_SIGS), None]
+
+
+def gen_failed(rng, names, known, ifs):
+    """1-3 declarations that raise part-way: the name is mostly one the object declares (or one that is known),
+    the member list mostly the complete one of that declaration with ONE bad argument at a random position"""
+    out = []
+    pool = list(names) * 3 + [d['name'] for d in known] + [gen_iface_name(rng)]
+    pool = [n for n in pool if n not in STD_NAMES and n != PROPS_DEF['name']]
+    if not pool:
+        return out
+    for _ in range(rng.choice([1, 1, 1, 2, 3])):
+        n = rng.choice(pool)
+        src = [d for d in ifs if d['name'] == n]
+        if src and rng.random() < 0.7:
+            args = add_ops_of(src[0])
+        else:
+            args = add_ops_of(gen_ifdef(rng, n))
+        rng.shuffle(args)
+        args = args[:rng.choice([len(args), len(args), rng.randint(0, len(args))])]
+        args.insert(rng.randint(0, len(args)), gen_bad_arg(rng))
+        out.append({'name': n, 'register': 0 if rng.random() < 0.15 else 1, 'args': args,
+                    'when': 'between' if rng.random() < 0.25 else 'before'})
+    return out
+
+
 def gen_doc(rng, malformed=False):
     nif = rng.choice([0, 1, 1, 1, 2, 2, 3, 4])
     names = []
@@ -426,6 +489,11 @@ def gen_doc(rng, malformed=False):
         kn = sorted({d['name'] for d in known})
         case['prelude'] = {'names': rng.sample(kn, rng.randint(1, len(kn))),
                            'kind': rng.choice(['truncated', 'truncated', 'mismatched', 'garbage', 'ampersand'])}
+    if not malformed and not dup and rng.random() < 0.3:
+        # declarations that raise part-way, in the same process, before the round trip / between the two parses
+        f = gen_failed(rng, names, known, ifs)
+        if f:
+            case['failed'] = f
     return case
 
 
@@ -483,6 +551,13 @@ def enc_doc(case):
     used = set()      # build order: the cached definitions first, then the exported objects in their order
     parts = ['doc', str(case['replace']), tok(case['path']), 'K', str(len(case['known']))]
     parts += [enc_ifdef(d, used) for d in case['known']]
+    if case.get('failed') is not None:
+        for mark, when in (('F', 'before'), ('G', 'between')):
+            att = [a for a in case['failed'] if a.get('when', 'before') == when]
+            parts += [mark, str(len(att))]
+            for a in att:
+                parts += [tok(a['name']), str(int(bool(a['register']))), str(len(a['args']))]
+                parts += ['o' if o[0] == 'o' else enc_op(o) for o in a['args']]
     parts += ['X', str(len(case['objs']))]
     for p, ifs in case['objs']:
         full = obj_ifdefs(case, ifs)
@@ -720,6 +795,30 @@ def prelude_text(pre):
     return '\n'.join(l)
 
 
+def other_arg(I, kind):
+    """something that is not a Method / Signal / Property instance"""
+    return {'tuple': ('Echo', 's', 's'), 'str': 'Echo', 'none': None, 'int': 0, 'list': [],
+            'iface': I.DBusInterface('x.y', noRegister=True), 'class': I.Method}.get(kind, kind)
+
+
+def attempt_declarations(I, case, when):
+    """`try: DBusInterface(name, *args) except Exception: carry on` for the attempts scheduled at `when`"""
+    out = []
+    for a in case.get('failed') or []:
+        if a.get('when', 'before') != when:
+            continue
+        args = [other_arg(I, o[1]) if o[0] == 'o' else member_of(I, o) for o in a['args']]
+        try:
+            if a['register']:
+                I.DBusInterface(a['name'], *args)
+            else:
+                I.DBusInterface(a['name'], *args, noRegister=True)
+            out.append('ok')
+        except Exception as e:      # noqa - the point of the step
+            out.append('e:' + exc_kind(e))
+    return out
+
+
 def observe_doc(case):
     """returns dict: events, result, calls (strings as the driver prints them) + raw objects for the oracle"""
     from txdbus import interface as I, introspection as X
@@ -751,6 +850,8 @@ def observe_doc(case):
         obs['known_objs'] = known_objs
         obs['known_before'] = [show_iface(k) for k in known_objs]
         obs['declared'] = declared
+        if case.get('failed') is not None:
+            obs['failed'] = [attempt_declarations(I, case, 'before'), None]
         if case.get('prelude'):
             try:
                 X.getInterfacesFromXML(prelude_text(case['prelude']))
@@ -783,7 +884,11 @@ def observe_doc(case):
         import copy
         obs['recovered_snapshot'] = [copy.deepcopy(r) for r in res]
         obs['known_after'] = [show_iface(k) for k in known_objs]
+        # what the table holds now (content as of now, see above)
+        obs['cache_after'] = {n: copy.deepcopy(o) for n, o in I.DBusInterface.knownInterfaces.items()}
         obs['calls'] = ','.join(['Q'] + probe_calls(res, case['queries'], case['path']))
+        if case.get('failed') is not None:
+            obs['failed'][1] = attempt_declarations(I, case, 'between')
         # the same text once more, with the other flag, on the cache the first parse left
         try:
             res2 = X.getInterfacesFromXML(text, not bool(case['replace']))
@@ -792,9 +897,21 @@ def observe_doc(case):
         except Exception as e:      # noqa
             obs['result2'] = 'err ' + exc_kind(e)
         obs['line'] = 'ok %s|%s|%s|2|%s' % (obs['events'], obs['result'], obs['calls'], obs['result2'])
+        if case.get('failed') is not None:
+            obs['failed_line'] = '|'.join(','.join(o) for o in obs['failed'])
+            obs['line'] += '|F|' + obs['failed_line']
         return obs
 
     return with_clean_cache(body)
+
+
+def split_failed(line):
+    """model output line -> (line without the `|F|<outcomes>|<outcomes>` tail, that tail or None)"""
+    if line is not None and line.startswith('ok '):
+        parts = line.split('|')
+        if len(parts) >= 4 and parts[-3] == 'F':
+            return '|'.join(parts[:-3]), '|'.join(parts[-2:])
+    return line, None
 
 
 def split_model_doc(line):
@@ -906,6 +1023,16 @@ def judge_doc(ctx, case, obs):
     known_names = {}
     for j, d in enumerate(case['known']):
         known_names[d['name']] = j          # a later entry of the same name overwrote the earlier one
+    # declarations attempted in this process that RAISED declared nothing (reading (d)): the names they used are
+    # as known / unknown as before, and everything below is judged exactly as without them.  (An attempt that
+    # returned although it was meant to raise made its name known with its own definition: not judged.)
+    attempts = case.get('failed') or []
+    outcomes = [o for part in (obs.get('failed') or []) for o in (part or [])]
+    ordered = [a for w in ('before', 'between') for a in attempts if a.get('when', 'before') == w]
+    if any(o == 'ok' and a['register'] for a, o in zip(ordered, outcomes)):
+        ctx.stat('a declaration meant to raise returned: document not judged')
+        return
+    failed_before = {a['name'] for a in attempts if a.get('when', 'before') == 'before'}
     # the declaring side: the exporter's own objects must hold what was declared (argument counting of addMethod /
     # addSignal, access decoding of Property) - judged against the generator's description
     for spec, d in zip(all_specs, obs['declared'] or []):
@@ -933,9 +1060,35 @@ def judge_doc(ctx, case, obs):
                               inp, observed=obs['known_after'][idx], expected=before)
             continue
         for key, what, o, e in definition_mismatches(spec, r):
-            ctx.violation(key, what, inp, observed=o, expected=e)
+            if name in failed_before:
+                ctx.violation('failed-declaration-then-' + key, 'a declaration of this name raised earlier in the '
+                              'process (it declared nothing), then the XML of the complete definition was parsed: '
+                              + what, inp, observed=o, expected=e)
+            else:
+                ctx.violation(key, what, inp, observed=o, expected=e)
         for n, q in r.properties.items():
             ctx.stat('emits comes back as %r' % (q.emits,))
+    # what the table holds under the declared names after the round trip (reading (e)): the definition that was
+    # known before (reuse) or the declared one; no entry at all is fine
+    for spec in specs:
+        name = spec['name']
+        if name in repeated:
+            continue        # which of several same-named blocks the cache keeps is not judged (see ASSUMPTIONS)
+        entry = (obs.get('cache_after') or {}).get(name)
+        if entry is None:
+            continue
+        if name in known_names and not case['replace']:
+            before = obs['known_before'][known_names[name]]
+            if show_iface(entry) != before:
+                ctx.violation('table-holds-undeclared-definition', 'after a parse without replacement the table of '
+                              'known interfaces holds, under a name that was known, something else than the known '
+                              'definition', inp, observed=show_iface(entry), expected=before)
+        else:
+            mm = definition_mismatches(spec, entry)
+            if mm:
+                ctx.violation('table-holds-undeclared-definition', 'after the round trip the table of known '
+                              'interfaces holds, under a declared name, a definition that is neither a known nor '
+                              'the declared one (%s)' % mm[0][0], inp, observed=mm[0][2], expected=mm[0][3])
     # the same text parsed again with the other flag: after a replacing parse a default-mode parse must see the
     # replaced (= declared) definitions; a replacing parse after a default one must yield the declared definitions
     if 'recovered2' in obs:
@@ -1197,6 +1350,22 @@ def doc_stats(ctx, case):
                             ctx.stat('shared %s object added after the XML was read' % {'m': 'Method', 's': 'Signal', 'p': 'Property'}[op[0]])
     if case.get('prelude'):
         ctx.stat('failed-parse prelude naming known interfaces: ' + case['prelude']['kind'])
+    if case.get('failed'):
+        declared_here = [d['name'] for p, ifs in case['objs'] if p == case['path'] for d in ifs]
+        knownn = [d['name'] for d in case['known']]
+        for a in case['failed']:
+            pos = [j for j, o in enumerate(a['args']) if o[0] == 'o' or o[-1] is None]
+            bad = a['args'][pos[0]] if pos else None
+            ctx.stat('raising declaration: %s, %s the parse, %s, name %s' % (
+                'no bad argument' if bad is None else ('non-member argument' if bad[0] == 'o' else
+                                                       {'m': 'Method', 's': 'Signal'}[bad[0]] + ' with a raising signature'),
+                a.get('when', 'before') if a.get('when', 'before') == 'before' else 'between the parses of',
+                'registering' if a['register'] else 'noRegister',
+                ('declared by the object' + (' and known' if a['name'] in knownn else '')) if a['name'] in declared_here
+                else ('known' if a['name'] in knownn else 'unrelated')))
+            if pos:
+                ctx.stat('raising declaration: bad argument %s' % (
+                    'first' if pos[0] == 0 else 'last' if pos[0] == len(a['args']) - 1 else 'in the middle'))
     if case['path'] != '/' and case['path'].endswith('/'):
         ctx.stat('query path with trailing slash')
     ctx.stat('replace=%d known=%d' % (case['replace'], len(case['known'])))
@@ -1234,7 +1403,16 @@ def run_docs(ctx, cases, malformed=False):
         ctx.case('gen-events', sample=c, nontrivial=nt)
         ctx.case('parse-result', nontrivial=nt)
         ctx.case('proxy-calls', nontrivial=nt)
+        if c.get('failed') is not None:
+            ctx.case('failed-declarations', sample=c, nontrivial=bool(c['failed']))
+            for o in (obs.get('failed') or [[], []]):
+                for x in (o or []):
+                    ctx.stat('declaration attempt outcome ' + x)
         if m is not None:
+            m, mfailed = split_failed(m)
+            if 'failed_line' in obs and mfailed != obs['failed_line']:
+                ctx.disagree('failed-declarations', c, mfailed, obs['failed_line'],
+                             detail='outcomes of the DBusInterface(...) attempts')
             mev, mres, mcalls, mres2 = split_model_doc(m)
             if 'events' not in obs:
                 if m != obs['line']:
@@ -1301,6 +1479,50 @@ def fixed_cases():
             doc([{'name': 'x.y', 'ops': []}], queries=qs)]
 
 
+def failed_declaration_cases():
+    """bounded-exhaustive: one declaration that raises - every kind of fault at EVERY position of the member
+    list - then the round trip of the complete definition under the same name; both flag values; the name unknown
+    before / known with another (successfully declared) definition; the fault before the round trip / between the
+    two parses; with and without noRegister"""
+    members = [['m', 'Echo', 's', 's', 1, 1], ['m', 'Query', 'a{sv}(i(ss))', 'a(ii)u', 2, 2], ['s', 'Tick', 'ut', 2],
+               ['p', 'Level', 'i', 1, 1, 't'], ['p', 'Tags', 'as', 1, 0, 'f']]
+    full = {'name': 'org.a.P', 'ops': [list(o) for o in members]}
+    older = {'name': 'org.a.P', 'ops': [['m', 'Echo', 'i', '', 1, 0], ['s', 'Old', 's', 1]], 'ctor': True}
+    bads = [['o', 'tuple'], ['o', 'none'], ['m', 'Broken', '(is', '', None, None], ['m', 'Broken', 'a', 's', None, None],
+            ['m', 'Broken', 'is', 'a{s', None, None], ['s', 'Broken', '(is', None], ['s', 'Broken', 'sa', None]]
+    qs = [[None, 'Echo', 1], [None, 'Query', 2], [None, 'Query', 1], ['org.a.P', 'Echo', 1], [None, 'Broken', 0]]
+    out = []
+    for pos in range(len(members) + 1):
+        for bi, bad in enumerate(bads):
+            args = [list(o) for o in members]
+            args.insert(pos, list(bad))
+            for replace in (0, 1):
+                # vary the rest deterministically so that every combination occurs for some (pos, bad)
+                k = pos * len(bads) + bi
+                when = 'between' if k % 4 == 3 else 'before'
+                known = [dict(older, ops=[list(o) for o in older['ops']])] if k % 3 == 1 else []
+                reg = 0 if k % 10 == 9 else 1
+                out.append({'kind': 'doc', 'replace': replace, 'path': '/a', 'known': known,
+                            'objs': [['/a', [{'name': full['name'], 'ops': [list(o) for o in members]}]]],
+                            'objkind': 'stub', 'queries': [list(q) for q in qs], 'dup': False, 'malformed': False,
+                            'failed': [{'name': full['name'], 'register': reg, 'args': args, 'when': when}]})
+    # several attempts under several names, the object declaring two interfaces
+    other = {'name': 'org.a.Q', 'ops': [['m', 'Ping', '', '', 0, 0], ['p', 'P', 'i', 1, 0, 't']]}
+    for replace in (0, 1):
+        out.append({'kind': 'doc', 'replace': replace, 'path': '/a', 'known': [],
+                    'objs': [['/a', [{'name': full['name'], 'ops': [list(o) for o in members]},
+                                     {'name': other['name'], 'ops': [list(o) for o in other['ops']]}]]],
+                    'objkind': 'dbusobject', 'queries': [list(q) for q in qs] + [[None, 'Ping', 0]], 'dup': False,
+                    'malformed': False,
+                    'failed': [{'name': 'org.a.Q', 'register': 1, 'args': [['o', 'str']], 'when': 'before'},
+                               {'name': 'org.a.P', 'register': 1, 'when': 'before',
+                                'args': [list(members[0]), list(members[2]), ['m', 'Broken', '(is', '', None, None]]},
+                               {'name': 'org.a.Q', 'register': 1, 'when': 'between',
+                                'args': [list(other['ops'][0]), ['s', 'Broken', 'a', None]]},
+                               {'name': 'org.b.Unrelated', 'register': 1, 'when': 'before', 'args': [['o', 'int']]}]})
+    return out
+
+
 def run(ctx):
     refresh_std()
     for name, data in ctx.corpus():
@@ -1310,6 +1532,7 @@ def run(ctx):
         else:
             run_docs(ctx, [c], malformed=bool(c.get('malformed')))
     run_docs(ctx, fixed_cases())
+    run_docs(ctx, failed_declaration_cases())
     n = ctx.scale(quick=1500, thorough=50000)
     run_docs(ctx, [gen_doc(ctx.rng) for _ in range(n)])
     run_evs(ctx, [gen_evs(ctx.rng) for _ in range(ctx.scale(quick=1500, thorough=50000))])
